@@ -140,6 +140,21 @@ class Trajectories:
         hist["short-level-then-new-level"] = dict(initial_level=2, maximum_level=3, initial_mc_paths=100,
                                                     plans=(([100, 100, 103], False), ([100, 100, 103, 6], False), ([100, 100, 103, 6], True)))
         ev, viol, samples = 0, {}, []
+        # rates regressed (none given) on a payoff whose level corrections are exactly zero: log2(0) = -inf in the regression;
+        # the rates the stopping test receives must stay finite, and the configuration's rates must still be "not given" afterwards
+        ev += 1
+        with warnings.catch_warnings():
+            warnings.simplefilter("ignore")
+            try:
+                eng, stats, counter, script = H.run(initial_level=2, maximum_level=3, initial_mc_paths=4, plans=(([4], False), ([4], True)), rates=(None, None, None), constant_payoff=True)
+                alphas = [e[2] for e in script.log if e[0] == "alpha"]
+                cr = eng.configuration.convergence_rates
+                if not alphas or not all(np.isfinite(a) for a in alphas):
+                    viol.setdefault("nan", {"obligation": f"{self.name}::regressed-rates-are-finite", "bounded": self.name, "witness": {"alphas_passed_to_the_stopping_test": [float(a) for a in alphas]}})
+                if not (cr.alpha is None and cr.beta is None and cr.gamma is None):
+                    viol.setdefault("frame", {"obligation": f"{self.name}::configured-rates-untouched-by-a-run", "bounded": self.name, "witness": {"rates_after_the_run": [cr.alpha, cr.beta, cr.gamma]}})
+            except Exception as e:
+                viol.setdefault("nan", {"obligation": f"{self.name}::regressed-rates-are-finite", "bounded": self.name, "witness": {"exception": f"{type(e).__name__}: {e}"}})
         for hname, kw in hist.items():
             ev += 1
             with warnings.catch_warnings():
